@@ -1,44 +1,49 @@
 /-
 C03 — non-malleable satisfactions cannot be altered by third parties.
 
-What is kernel-checked here (Tier 1 of DESIGN "### C03"): the SELECTION LATTICE of the satisfier
-model (`Model/Satisfy.lean` ↔ `src/miniscript/satisfy/{mod,sat_dissat}.rs`), i.e. the rules by
-which the non-malleable mode refuses ambiguous choices:
+MAIN THEOREM (kernel-checked): TABLE-LEVEL UNIQUENESS, `table_unique_partial`.
+For a script of non-malleable type with pairwise distinct keys, if the NON-malleable satisfier
+returns the witness `W`, then every canonical satisfaction of the specification's table
+(`Spec/SatAll.allSat`: ALL of them — both branches of every `or`, every `k`-subset of a
+threshold / multisig) that a third party can assemble — a third party who knows every preimage,
+faces the same transaction, and holds of the script's keys only signatures VISIBLE in `W` — is
+`W`.  Proved by induction over the typing derivation (`Lemmas/Uniq*.lean`): every fragment,
+thresholds of any arity, the four multisig fragments.  Companions: `table_none_partial`
+(impossible for the caller / needs a signature ⇒ nothing for the third party),
+`dissat_unique_for_e` (type `e` ⇒ the satisfier's dissatisfaction is the only canonical table
+dissatisfaction and the one `SatTable.dsatWit` builds), `dissat_unique_needs_nonMall` (without
+`m` that statement is false — concrete script).
 
-  * `minimum` (a)   — never returns a stack when both alternatives are available without a
-                      signature; prefers the signature-less alternative over a signed one and
-                      then drops the `has_sig` flag; only the `(true,true)` case compares cost.
-  * `has_sig` (b)   — bookkeeping is EXACT in non-malleable mode: a returned stack is flagged
-                      `has_sig` iff it contains a signature placeholder (every fragment, every
-                      asset set, by induction over the script).
-  * `thresh` (c)    — the index sort is a stable sorted permutation; if more than `k` children
-                      have an available signature-less satisfaction the result is never a stack.
+SCRIPT LEVEL: `nonmall_unique_script_of_bridge` — under the explicit hypothesis `AcceptedImpTable`
+(an accepted stack is, element by element, a table satisfaction) the returned witness is the
+only accepted stack.  `AcceptedImpTable` is NOT proved (C02's `accepted_imp_satEx` gives existence
+of a table satisfaction, not identity of the accepted stack); `nonmall_unique_full` states the
+property with the library's own sanity predicate `LibSane` (C12's `validate … SANE`) and the
+harness' adversary model and stays open; on explored inputs it is decided on every run by the
+exhaustive adversary search (`J nonmall`, `J dnonmall`, `J dnoalt`).  `libSane_facts` /
+`libSane_keys_nodup` derive type `B`/`m`/`s` and the distinct keys from `LibSane`.
 
-  * judge (d)       — the one script-specific pruning rule of the adversary search (signature
-                      block of CHECKMULTISIG under NULLFAIL + NULLDUMMY) loses no accepted stack.
+Also here (the satisfier's selection lattice, used by the induction):
+  * `minimum`: refuses two signature-less alternatives, prefers a signature-less one;
+  * `has_sig` is exact in non-malleable mode (flag ⇔ signature placeholder), every script;
+  * `thresh`: sorted permutation; more than `k` signature-less children ⇒ no stack;
+  * judge: the CHECKMULTISIG pruning rule of the adversary search loses no accepted stack.
 
-What is NOT proved here: the uniqueness claim itself (`nonmall_unique_full`, stated below over
-`Script.accepts`/`encode`).  It is DECIDED on every run, for every explored input, by the
-exhaustive adversary search of `Driver/OpsMalle.lean` (`J nonmall` lines of `harness/src/c03.rs`).
-Missing for a proof: (T2) uniqueness among the specification table's satisfactions from the
-typing invariants `s`/`e`/`m`, and (T3) "every accepted stack is a table satisfaction" for
-arbitrary byte strings — the C02.T2 / C06 lemmas about `frag`, which do not exist yet.
-
-`dissat_unique_for_e_full` (the model's dissatisfaction of a fragment typed `dissat = unique` is
-the specification table's canonical one) is stated and left open.  It was FALSE of the code
-before the repair of defect F3 (`Terminal::NonZero` had the dissatisfaction IMPOSSIBLE instead of
-`[""]`); on the repaired code the former counterexample agrees with the table
-(`dissat_table_agrees_at_j`, by evaluation).
+The taproot finding (a leaf occurring twice: control blocks can be exchanged) is about the
+output envelope; there is no model of tr envelopes in this file — it is harness-only
+(`J dnoalt`, known_findings.txt).
 -/
 import MsVerif.Lemmas.MalleLattice
 import MsVerif.Lemmas.MalleThresh
 import MsVerif.Lemmas.MalleSearch
+import MsVerif.Lemmas.UniqFinal
+import MsVerif.Model.Validate
 import MsVerif.Model.TypeCheck
 import MsVerif.Model.Encode
 import MsVerif.Spec.SatTable
 
 namespace MsVerif.C03
-open MsVerif Sat MalleLattice MalleThresh
+open MsVerif Sat MalleLattice MalleThresh Uniq
 
 /-! ## (a) `Satisfaction::minimum` -/
 
@@ -106,6 +111,11 @@ theorem minimum_selects (s1 s2 : Sat) :
 def nonMallCfg (env : KeyEnv) (ctx : Ctx) (rootHasSig : Bool) (a : Assets) : SatCfg :=
   ⟨env, ctx, false, rootHasSig, a⟩
 
+/-- a caller holding every ECDSA signature and nothing else; a dummy key environment -/
+def exAssets : Assets := ⟨fun _ => true, fun _ => none, fun _ => none, fun _ => none, fun _ => none,
+  fun _ _ => false, fun _ => false, fun _ => false⟩
+def exEnv : KeyEnv := ⟨fun _ => [], fun _ => [], fun _ => [], fun _ => [], fun _ _ => []⟩
+
 /-- (b) in EITHER mode: a satisfaction or dissatisfaction flagged `has_sig` that is a stack
 contains at least one signature placeholder.  (`kPos`: multisig thresholds are ≥ 1, which
 `Threshold::new` guarantees; for `multi(0,…)` the Rust flags the signature-free stack `[0]`.) -/
@@ -172,50 +182,116 @@ theorem threshNonMall_refuses_ambiguous (k : Nat) (dissats sats : List Sat)
   intro l
   rcases threshNonMall_refuses k dissats sats hc with e | e <;> rw [e] <;> intro h <;> cases h
 
-/-! ## (e) dissatisfactions vs the specification table -/
+/-! ## TABLE-LEVEL UNIQUENESS (the typing-invariant argument)
 
-def phItem : Ph → SatTable.Item
-  | .pubkey k _ => .key k
-  | .pubkeyHash h _ => .rawKey h
-  | .ecdsaSig k | .schnorrSig k _ => .sig k
-  | .ecdsaSigPkh h | .schnorrSigPkh h _ => .rawSig h
-  | .preimage kind h => .pre kind h
-  | .hashDissat => .zero32
-  | .pushOne => .one
-  | .pushZero => .empty
+`SatAll.allSat adv sortK ms` (Spec/SatAll.lean) enumerates EVERY canonical satisfaction of the
+specification's table that a holder of `adv` can assemble (both branches of every `or`, every
+`k`-subset of a threshold's children / of a multisig's signatures); `Uniq.items` turns the
+satisfier's placeholders into table items.  The adversary `adv` (structure `Uniq.AdvOK`):
+no signature the caller does not have, the same transaction (the lock checks agree), preimages
+and everything else unconstrained — i.e. the adversary may know ALL preimages.
 
-def availOf (a : Assets) : SatTable.Avail where
-  sig k := a.ecdsaSig k || (a.schnorrSig k).isSome
-  preimage := a.preimage
-  after := a.checkAfter
-  older n := a.checkOlder (relCanon n)
-  rawKey h := (a.rawPkhPk h).isSome
-  rawSig h := (a.rawPkhEcdsa h).isSome || (a.rawPkhSchnorr h).isSome
+The proof is the induction over the typing derivation (`Lemmas/UniqMain.lean`, `Uniq.uinv`) with
+the invariant `Uniq.AltInv` for every alternative the satisfier forms:  impossible ⇒ the
+adversary's table list is empty;  flagged `has_sig` and no adversary signature for the keys ⇒
+empty;  a returned stack whose keys' adversary signatures are all visible in it ⇒ it is the only
+table entry.  `minimum`, `concatenate_rev`, `thresh` preserve it (the `(false,false)` refusal,
+"signature-less beats signed", and the position-`k` test of `thresh` are exactly what is needed);
+pairwise distinct keys make a signature visible in the result belong to one sub-witness. -/
 
-/-- a caller holding every ECDSA signature and nothing else; a dummy key environment -/
-def exAssets : Assets := ⟨fun _ => true, fun _ => none, fun _ => none, fun _ => none, fun _ => none,
-  fun _ _ => false, fun _ => false, fun _ => false⟩
-def exEnv : KeyEnv := ⟨fun _ => [], fun _ => [], fun _ => [], fun _ => [], fun _ _ => []⟩
+/-- caller's availability in a context (`Complete.availOf`, the `Avail` C02 uses) -/
+abbrev callerAvail (a : Assets) (ctx : Ctx) : SatTable.Avail := Complete.availOf a ctx
 
-/-- (e), full statement: for a fragment whose type says `dissat = unique`, the non-malleable
-model's dissatisfaction IS the specification table's canonical dissatisfaction. -/
-def dissat_unique_for_e_full : Prop :=
-  ∀ (env : KeyEnv) (ctx : Ctx) (a : Assets) (ms : Ms) (τ : Ty),
-    typeOf ms = some τ → τ.mall.dissat = .unique →
-    ∀ items, SatTable.dsatWit (availOf a) (sortKeys env) ms = some items →
-      ∃ l, (satDissat (nonMallCfg env ctx τ.mall.signed a) ms).dissat.stack = .stack l ∧ l.map phItem = items
+/-- (b) TABLE-LEVEL UNIQUENESS.  A script of non-malleable type (`m`; `s` is what makes the
+library pass `root_has_sig = true`) with pairwise distinct keys.  If the NON-malleable satisfier
+returns the stack `W` for the caller's assets `a`, then EVERY table satisfaction assemblable by a
+third party who (1) holds no signature the caller lacks and (2) holds, of the script's keys,
+only signatures that are VISIBLE in `W`, (3) faces the same transaction, and who may know every
+preimage, is `W` itself.  So the third party can neither alter the witness nor choose another
+spending path — at the level of the specification's satisfaction table.
 
-/-- the script on which the statement failed before defect F3 (`j:` dissatisfaction IMPOSSIBLE)
-was repaired: `j:and_v(v:pk(0),1)` is typed `dissat = unique`, the table's dissatisfaction is
-`[""]`, and the model (= `sat_dissat.rs`, `Terminal::NonZero`) now returns exactly that. -/
+`_partial`: the caller is assumed to know every preimage of the script (`SideOK.pre`, as in C02's
+`nonmall_complete`; the satisfier's `Unavailable` bookkeeping for unknown preimages is not
+covered), raw key hashes are excluded (as by `SANE`), and "table level" — the step from accepted
+byte stacks to table rows is `AcceptedImpTable` below. -/
+theorem table_unique_partial (ke : KeyEnv) (ctx : Ctx) (a : Assets) (ms : Ms) (τ : Ty)
+    (W : List Ph) (adv : SatTable.Avail)
+    (hτ : typeOf ms = some τ) (hm : τ.mall.nonMall = true) (hs : τ.mall.signed = true)
+    (hside : SideOK ctx a ms)
+    (hW : (satDissat (nonMallCfg ke ctx τ.mall.signed a) ms).sat.stack = .stack W)
+    (hadv : AdvOK adv (callerAvail a ctx))
+    (hvis : ∀ k ∈ keysOf ms, adv.sig k = true → SatTable.Item.sig k ∈ items W) :
+    ∀ t ∈ SatAll.allSat adv (sortKeys ke) ms, t = items W := by
+  rw [hs] at hW
+  exact (uinv_top ke ctx a ms τ adv hτ hm hside hadv).sat.i3 W hW hvis
+
+/-- companion: where the satisfier finds NO satisfaction because one is impossible for the
+caller (missing signature, unmet lock), the third party has no table satisfaction either; and
+where the satisfier's result needs a signature, a third party without any signature for the
+script's keys has none -/
+theorem table_none_partial (ke : KeyEnv) (ctx : Ctx) (a : Assets) (ms : Ms) (τ : Ty)
+    (adv : SatTable.Avail)
+    (hτ : typeOf ms = some τ) (hm : τ.mall.nonMall = true) (hs : τ.mall.signed = true)
+    (hside : SideOK ctx a ms) (hadv : AdvOK adv (callerAvail a ctx)) :
+    ((satDissat (nonMallCfg ke ctx τ.mall.signed a) ms).sat.stack = .impossible →
+      SatAll.allSat adv (sortKeys ke) ms = []) ∧
+    ((satDissat (nonMallCfg ke ctx τ.mall.signed a) ms).sat.hasSig = true →
+      (∀ k ∈ keysOf ms, adv.sig k = false) → SatAll.allSat adv (sortKeys ke) ms = []) := by
+  rw [hs]
+  have h := (uinv_top ke ctx a ms τ adv hτ hm hside hadv).sat
+  exact ⟨h.i1, h.i2⟩
+
+/-- (c) for type `e` (`dissat = unique`) in a non-malleable script: the satisfier's
+dissatisfaction is a signature-free stack `d`, and it is the ONLY canonical table dissatisfaction
+— for every third party (`AdvOK`), in particular for one without any signature — and it is the
+row the trusted first-match table `SatTable.dsatWit` constructs. -/
+theorem dissat_unique_for_e (ke : KeyEnv) (ctx : Ctx) (a : Assets) (ms : Ms) (τ : Ty)
+    (hτ : typeOf ms = some τ) (hm : τ.mall.nonMall = true) (he : τ.mall.dissat = .unique)
+    (hside : SideOK ctx a ms) :
+    ∃ d, (satDissat (nonMallCfg ke ctx true a) ms).dissat.stack = .stack d ∧
+      (∀ k, SatTable.Item.sig k ∉ items d) ∧
+      (∀ adv, AdvOK adv (callerAvail a ctx) → ∀ t ∈ SatAll.allDsat adv (sortKeys ke) ms, t = items d) ∧
+      (∀ its, SatTable.dsatWit (callerAvail a ctx) (sortKeys ke) ms = some its → its = items d) := by
+  obtain ⟨ua, ur, hu⟩ := Complete.exists_units a ms hside.locks
+  have hP : Complete.allNodes (Complete.nmP Complete.MODEL_NZ a ua ur) ms = true := by
+    unfold Complete.nmP Complete.allNodes
+    rw [Complete.all_and, Complete.all_and, Complete.all_and, Complete.all_and]
+    simp only [Bool.and_eq_true]
+    exact ⟨⟨⟨⟨hu, Complete.nzOK (.inl rfl)⟩, hside.raw⟩, hside.pre⟩, hside.kok⟩
+  have nm := nmInv' ⟨ke, ctx, false, true, a⟩ ua ur rfl rfl ms τ hτ hm hP
+  obtain ⟨d, hd⟩ := Complete.isStk_exists (nm.du he).1
+  have self : AdvOK (callerAvail a ctx) (callerAvail a ctx) := ⟨fun _ h => h, fun _ => rfl, fun _ => rfl⟩
+  refine ⟨d, hd, ?_, ?_, ?_⟩
+  · exact fun k => dissat_nos ⟨ke, ctx, false, true, a⟩ rfl ms (nm.du he).2 d hd k
+  · intro adv hadv t ht
+    exact ((uinv_top ke ctx a ms τ adv hτ hm hside hadv).du he).i3 d hd (fun _ hk => by cases hk) t ht
+  · intro its hits
+    exact ((uinv_top ke ctx a ms τ _ hτ hm hside self).du he).i3 d hd (fun _ hk => by cases hk) its
+      (dsatWit_mem _ _ ms its hits)
+
+/-- the statement (c) WITHOUT the non-malleability hypothesis (as it stood in this file before)
+is FALSE: `or_b(or_i(pk(0),pk(1)),a:pk(2))` is typed `dissat = unique` (the `or_b` rule says so
+unconditionally), the first-match table dissatisfies it, but `or_i(pk,pk)` has two
+dissatisfactions and the non-malleable satisfier answers `Unavailable`. -/
+theorem dissat_unique_needs_nonMall :
+    let ms : Ms := .orB (.orI (.check (.pkK 0)) (.check (.pkK 1))) (.alt (.check (.pkK 2)))
+    (typeOf ms).map (·.mall.dissat) = some .unique ∧
+    (typeOf ms).map (·.mall.nonMall) = some false ∧
+    (SatTable.dsatWit (callerAvail exAssets .segwitv0) (sortKeys exEnv) ms).isSome = true ∧
+    (satDissat (nonMallCfg exEnv .segwitv0 true exAssets) ms).dissat.stack = .unavailable ∧
+    (SatAll.allDsat (callerAvail exAssets .segwitv0) (sortKeys exEnv) ms).length = 2 := by
+  decide
+
+/-- the script on which (c) failed before defect F3 (`j:` dissatisfaction IMPOSSIBLE) was
+repaired: `j:and_v(v:pk(0),1)`; it now meets the hypotheses of `dissat_unique_for_e` -/
 theorem dissat_table_agrees_at_j :
     typeOf (.nonZero (.andV (.verify (.check (.pkK 0))) .tru))
       = some ⟨⟨.B, .oneNonZero, true, true⟩, ⟨.unique, true, true⟩⟩ ∧
-    SatTable.dsatWit (availOf exAssets) (sortKeys exEnv) (.nonZero (.andV (.verify (.check (.pkK 0))) .tru))
-      = some [.empty] ∧
+    SatTable.dsatWit (callerAvail exAssets .segwitv0) (sortKeys exEnv)
+        (.nonZero (.andV (.verify (.check (.pkK 0))) .tru)) = some [.empty] ∧
     (satDissat (nonMallCfg exEnv .segwitv0 true exAssets)
       (.nonZero (.andV (.verify (.check (.pkK 0))) .tru))).dissat.stack = .stack [.pushZero] ∧
-    [Ph.pushZero].map phItem = [SatTable.Item.empty] := by
+    items [Ph.pushZero] = [SatTable.Item.empty] := by
   decide
 
 /-! ## the judge's CHECKMULTISIG pruning rule -/
@@ -247,7 +323,18 @@ example :
   simp (decide := true) [Script.multisig, Script.multisigLoop, exMsEnv, Script.numDecode, Script.numDecodeRaw,
     Script.countOp, Script.pushElem, Script.boolBytes, Script.leValue]
 
-/-! ## the property itself (open; decided by search on explored inputs) -/
+/-! ## the property itself at Script level
+
+The library's default sanity is CONCRETE here: `LibSane` = `Miniscript::validate(&Ctx::SANE)`
+succeeds (C12's model `Model/Validate.lean`: typed, base `B`, non-malleable, every branch signed,
+no duplicate keys, no mixed time locks, no raw key hash, within the limits).  The adversary model
+is the one of the harness: a candidate stack may contain ANY byte strings, except that every
+element that verifies as a signature for some public key is an element of the original witness
+(unforgeability as a hypothesis on `env.sigOk`); preimages and public keys are not restricted. -/
+
+/-- the library's default sanity rules -/
+def LibSane (kenv : KeyEnv) (K : KeyInfo) (ctx : Ctx) (ms : Ms) : Prop :=
+  isOk (validate kenv K ctx (Ctx.SANE ctx) ms) = true
 
 /-- standardness flags of a context (as `Driver.ctxFlags … true`) -/
 def stdFlags : Ctx → Script.Flags
@@ -255,20 +342,152 @@ def stdFlags : Ctx → Script.Flags
   | .segwitv0 => ⟨false, true, true, true, true, true, true⟩
   | _ => ⟨false, false, true, true, true, true, true⟩
 
-/-- C03 at full strength.  `real` turns the satisfier's placeholders into the caller's bytes;
-the adversary may use ANY byte strings except signatures that verify for some key and are not
-visible in the original witness (unforgeability is a hypothesis, not an axiom); `sane` stands for
-the remaining `Ctx::SANE` conditions (no repeated keys, no mixed time locks, limits). -/
+theorem sane_params (ctx : Ctx) :
+    (Ctx.SANE ctx).allowMalleability = false ∧ (Ctx.SANE ctx).allowNonB = false ∧
+    (Ctx.SANE ctx).allowSiglessBranch = false ∧ (Ctx.SANE ctx).allowDuplicateKeys = false := by
+  cases ctx <;> decide
+
+/-- what `LibSane` gives directly: typed, base `B`, type `m` and `s`, no repeated keys -/
+theorem libSane_facts (kenv : KeyEnv) (K : KeyInfo) (ctx : Ctx) (ms : Ms) (h : LibSane kenv K ctx ms) :
+    ∃ τ, typeOf ms = some τ ∧ τ.corr.base = .B ∧ τ.mall.nonMall = true ∧ τ.mall.signed = true ∧
+      hasRepeatedKeys ms = false := by
+  obtain ⟨pm, pb, ps, pd⟩ := sane_params ctx
+  unfold LibSane validate at h
+  cases hτ : typeOf ms with
+  | none => simp [hτ, isOk] at h
+  | some τ =>
+    simp only [hτ] at h
+    cases hv : validateNonTopLevel kenv K ctx (Ctx.SANE ctx) ms with
+    | error e => simp [hv, isOk] at h
+    | ok u =>
+      simp only [hv] at h
+      refine ⟨τ, rfl, ?_⟩
+      have hrep : hasRepeatedKeys ms = false := by
+        unfold validateNonTopLevel chk at hv
+        simp only [pd, Bool.not_false, Bool.true_and] at hv
+        cases hr : hasRepeatedKeys ms with
+        | false => rfl
+        | true =>
+          simp only [hr] at hv
+          split at hv
+          · cases hv
+          · simp at hv
+      unfold topLevelCheck chk at h
+      simp only [pm, pb, ps, Bool.not_false, Bool.true_and] at h
+      cases hnm : τ.mall.nonMall <;> cases hsg : τ.mall.signed <;> cases hb : τ.corr.base <;>
+        simp_all [isOk]
+
+/-- THE BRIDGE still missing between the table and Script (the gap named T3 in the design):
+every stack the Script semantics accepts under the standardness rules, assembled by the third
+party, is — element by element, through a realisation `real` of table items as bytes — one of
+the table's canonical satisfactions for the third party's availability.  (C02's
+`accepted_imp_satEx` gives the EXISTENCE of a table satisfaction from an accepted stack, not that
+the accepted stack IS one; for junk in hash-dissatisfaction positions it is false without the
+typing invariants — which is where `m` has to enter once more.) -/
+def AcceptedImpTable (env : Script.Env) (kenv : KeyEnv) (ctx : Ctx) (ms : Ms) (adv : SatTable.Avail)
+    (real : SatTable.Item → Bytes) : Prop :=
+  ∀ w' : List Bytes, Script.accepts env (encode kenv ctx ms) w'.reverse = true →
+    ∃ t ∈ SatAll.allSat adv (sortKeys kenv) ms, w' = t.map real
+
+/-- (d) Script-level uniqueness, conditional on the bridge: under `AcceptedImpTable` the witness
+the non-malleable satisfier returned is the ONLY stack the Script semantics accepts -/
+theorem nonmall_unique_script_of_bridge (ke : KeyEnv) (ctx : Ctx) (a : Assets) (ms : Ms) (τ : Ty)
+    (W : List Ph) (adv : SatTable.Avail) (env : Script.Env) (real : SatTable.Item → Bytes)
+    (hτ : typeOf ms = some τ) (hm : τ.mall.nonMall = true) (hs : τ.mall.signed = true)
+    (hside : SideOK ctx a ms)
+    (hW : (satDissat (nonMallCfg ke ctx τ.mall.signed a) ms).sat.stack = .stack W)
+    (hadv : AdvOK adv (callerAvail a ctx))
+    (hvis : ∀ k ∈ keysOf ms, adv.sig k = true → SatTable.Item.sig k ∈ items W)
+    (hbridge : AcceptedImpTable env ke ctx ms adv real) :
+    ∀ w' : List Bytes, Script.accepts env (encode ke ctx ms) w'.reverse = true →
+      w' = (items W).map real := by
+  intro w' hacc
+  obtain ⟨t, ht, rfl⟩ := hbridge w' hacc
+  rw [table_unique_partial ke ctx a ms τ W adv hτ hm hs hside hW hadv hvis t ht]
+
+/-- C03 at full strength, with the library's own sanity predicate and the harness' adversary
+model.  `real` realises the satisfier's placeholders as the caller's bytes (`RealOK`: the
+realised signatures verify, nothing else does unless it is in the witness — unforgeability).
+OPEN: provable from `nonmall_unique_script_of_bridge` once (1) `AcceptedImpTable` is proved for
+sane scripts, (2) `SideOK` is derived from `LibSane` (distinct keys: `libSane_facts`; lock
+compatibility and fragment/context facts are not yet derived from `validate`), (3) callers that
+do not know every preimage are covered. -/
 def nonmall_unique_full : Prop :=
-  ∀ (kenv : KeyEnv) (ctx : Ctx) (a : Assets) (ms : Ms) (τ : Ty) (env : Script.Env)
-    (real : Ph → Bytes) (sane : Ms → Prop) (l : List Ph),
-    typeOf ms = some τ → τ.corr.base = .B → τ.mall.nonMall = true → τ.mall.signed = true → sane ms →
-    env.flags = stdFlags ctx →
-    (satDissat (nonMallCfg kenv ctx true a) ms).sat.stack = .stack l →
+  ∀ (kenv : KeyEnv) (K : KeyInfo) (ctx : Ctx) (a : Assets) (ms : Ms) (τ : Ty) (env : Script.Env)
+    (real : Ph → Bytes) (W : List Ph),
+    typeOf ms = some τ → LibSane kenv K ctx ms → env.flags = stdFlags ctx →
+    (satDissat (nonMallCfg kenv ctx τ.mall.signed a) ms).sat.stack = .stack W →
+    -- the original witness is accepted
+    Script.accepts env (encode kenv ctx ms) (W.map real).reverse = true →
     ∀ w' : List Bytes,
-      (∀ x ∈ w', (∃ pk, env.sigOk pk x = true) → x ∈ l.map real) →
+      -- unforgeability: a candidate element that verifies as a signature is one of the original's
+      (∀ x ∈ w', (∃ pk, env.sigOk pk x = true) → x ∈ W.map real) →
       Script.accepts env (encode kenv ctx ms) w'.reverse = true →
-      w' = l.map real
+      w' = W.map real
+
+/-- with `libSane_facts`: the library's sanity gives the distinct-keys side condition -/
+theorem libSane_keys_nodup (kenv : KeyEnv) (K : KeyInfo) (ctx : Ctx) (ms : Ms) (h : LibSane kenv K ctx ms) :
+    (keysOf ms).Nodup := by
+  obtain ⟨_, _, _, _, _, hrep⟩ := libSane_facts kenv K ctx ms h
+  exact nodup_of_not_repeated ms hrep
+
+/-! ## a concrete, nested instance of every hypothesis
+
+`and_v(v:pk(0), and_v(v:thresh(2,pk(2),s:pk(3),s:pk(4)), or_d(pk(1), and_v(v:sha256(0),older(10)))))`
+— a threshold, a hash, a relative lock, an `or` with a signature-less branch.  The caller holds
+signatures for keys 0, 2, 3 (not 1, not 4), the preimage, and a transaction meeting `older(10)`.
+The satisfier returns `[pre, <> (pk 1), <> (pk 4), sig3, sig2, sig0]`; the third party holds the
+three visible signatures, every preimage, the same transaction. -/
+
+def exMs : Ms :=
+  .andV (.verify (.check (.pkK 0)))
+    (.andV (.verify (.thresh 2 (.cons (.check (.pkK 2)) (.cons (.swap (.check (.pkK 3)))
+        (.cons (.swap (.check (.pkK 4))) .nil)))))
+      (.orD (.check (.pkK 1)) (.andV (.verify (.hash .sha256 0)) (.older 10))))
+
+def exA : Assets := ⟨fun k => k == 0 || k == 2 || k == 3, fun _ => none, fun _ => none, fun _ => none,
+  fun _ => none, fun _ _ => true, fun n => n == 10, fun _ => false⟩
+
+def exW : List Ph := [.preimage .sha256 0, .pushZero, .pushZero, .ecdsaSig 3, .ecdsaSig 2, .ecdsaSig 0]
+
+def exTy : Ty := ⟨⟨.B, .anyNonZero, false, false⟩, ⟨.none, true, true⟩⟩
+
+/-- the third party: the visible signatures, all preimages, the same locks -/
+def exAdv : SatTable.Avail := { callerAvail exA .segwitv0 with sig := fun k => k == 0 || k == 2 || k == 3 }
+
+theorem exMs_typed : typeOf exMs = some exTy := by decide
+
+theorem exMs_side : SideOK .segwitv0 exA exMs :=
+  ⟨by decide, by decide, by decide, by decide, by decide, by decide⟩
+
+theorem exMs_sat : (satDissat (nonMallCfg exEnv .segwitv0 exTy.mall.signed exA) exMs).sat.stack = .stack exW := by
+  decide
+
+theorem exAdv_ok : AdvOK exAdv (callerAvail exA .segwitv0) :=
+  ⟨fun k h => by simpa [exAdv, callerAvail, Complete.availOf, Complete.sigAvail, Ctx.sigType, exA] using h,
+   fun _ => rfl, fun _ => rfl⟩
+
+/-- `table_unique_partial` applies: every table satisfaction the third party can assemble for
+the example is the satisfier's witness -/
+example : ∀ t ∈ SatAll.allSat exAdv (sortKeys exEnv) exMs, t = items exW :=
+  table_unique_partial exEnv .segwitv0 exA exMs exTy exW exAdv exMs_typed rfl rfl exMs_side exMs_sat
+    exAdv_ok (by decide)
+
+/-- … and there IS such a table satisfaction (the statement is not vacuous) -/
+example : SatAll.allSat exAdv (sortKeys exEnv) exMs = [items exW] := by decide
+
+/-- `dissat_unique_for_e` on a nested `e`-typed fragment: `thresh(2,pk(2),s:pk(3),s:pk(4))` -/
+example : ∃ d, (satDissat (nonMallCfg exEnv .segwitv0 true exA)
+      (.thresh 2 (.cons (.check (.pkK 2)) (.cons (.swap (.check (.pkK 3))) (.cons (.swap (.check (.pkK 4))) .nil))))).dissat.stack
+      = .stack d ∧ (∀ k, SatTable.Item.sig k ∉ items d) :=
+  let ⟨d, h1, h2, _⟩ := dissat_unique_for_e exEnv .segwitv0 exA _
+    ⟨⟨.B, .any, true, true⟩, ⟨.unique, true, true⟩⟩ (by decide) rfl rfl
+    ⟨by decide, by decide, by decide, by decide, by decide, by decide⟩
+  ⟨d, h1, h2⟩
+
+/-- `libSane_facts` is not vacuous: the example passes the library's sanity rules (model) -/
+example : LibSane exEnv ⟨fun _ => .compressed, fun _ => 0⟩ .segwitv0 exMs := by
+  unfold LibSane; decide
 
 /-! ## non-vacuity -/
 
